@@ -289,7 +289,7 @@ func (x *Unit) frameCheck(ret *State, ec *specCtx) {
 	}
 	for _, k := range sortedKeys(ret.ghost) {
 		g := ret.ghost[k]
-		if k == "now" || k == "ev_spawn" {
+		if k == "now" || k == "ev_spawn" || strings.HasPrefix(k, "res:") || strings.HasPrefix(k, "let:") {
 			continue
 		}
 		want, ok := exp.ghost[k]
